@@ -29,3 +29,12 @@ let hex (l : n list) : string =
 let split_on c s = if s = "-" then [] else String.split_on_char c s
 
 let tokens line = List.filter (fun t -> t <> "") (String.split_on_char ' ' line)
+
+
+(* ---- printing values as Gallina terms (for the kernel cross-check: the same case is evaluated by vm_compute) ---- *)
+let g_nat n = string_of_int (int_of_nat n)
+let g_list f l = "[" ^ String.concat "; " (List.map f l) ^ "]"
+let g_str (s : n list) = if s = [] then "(@nil N)" else "(" ^ g_list (fun b -> string_of_int (int_of_n b)) s ^ "%N)"
+let g_small_n n = "(" ^ string_of_int (int_of_n n) ^ "%N)"
+let g_pair a b = "(" ^ a ^ ", " ^ b ^ ")"
+let g_option f = function None -> "None" | Some x -> "(Some " ^ f x ^ ")"
